@@ -76,6 +76,22 @@ structure State where
   env       : Env := {}
   deriving Repr, Inhabited
 
+/-- an EVM address that takes part in a transaction: `k c` — the contract `K<c>` created by the
+module account (an ERC20 of ours, bound to a token by `DeployERC20`), `u n` — any other address
+`U<n>` (a router, a foreign contract): never bound to a token -/
+inductive Emitter where
+  | k (c : Nat)
+  | u (n : Nat)
+  deriving DecidableEq, Repr, Inhabited
+
+/-- one `SwapToNative(from, to, amount)` log of a receipt, with the contract that emitted it -/
+structure SwapLog where
+  emitter : Emitter
+  src     : String
+  to      : String
+  amount  : Int
+  deriving Repr, Inhabited
+
 inductive Op where
   | issue (owner symbol name minUnit : String) (scale init max : Nat) (mintable : Bool)
   | edit (owner symbol name : String) (max : Nat) (mintable : String)
@@ -89,6 +105,7 @@ inductive Op where
   | hookSwap (src : String) (contract : Nat) (to : String) (amount : Int)
   | evmFault (mode : String)
   | updateParams (authority : String) (p : Params)
+  | evmTx (target : Emitter) (logs : List SwapLog)
   deriving Repr, Inhabited
 
 inductive Err where
@@ -501,6 +518,26 @@ def stepHookSwap (s : State) (src : String) (c : Nat) (to : String) (amount : In
       .ok { s with evm := AMap.set s.evm (c, src) (evmBal s c src - amount.toNat),
                    bank := s.bank.mint to t.minUnit amount.toNat }
 
+/-- one log of an EVM transaction: a contract of ours burned the caller's balance before emitting
+it, and the hook resolves the token **by the emitting contract**; a log of any other address has
+no ERC20 effect here and is ignored by the hook (`getTokenByContract(log.Address)` fails) -/
+def stepLog (s : State) (l : SwapLog) : R :=
+  match l.emitter with
+  | .k c => stepHookSwap s l.src c l.to l.amount
+  | .u _ => .ok s
+
+/-- the logs of a receipt, in order; any failure reverts the whole transaction -/
+def stepLogs (s : State) : List SwapLog → R
+  | [] => .ok s
+  | l :: rest =>
+    match stepLog s l with
+    | .error e => .error e
+    | .ok s1 => stepLogs s1 rest
+
+/-- an EVM transaction sent to `target` whose receipt carries `logs`, followed by
+`PostTxProcessing`: the target of the transaction plays no role -/
+def stepEvmTx (s : State) (_target : Emitter) (logs : List SwapLog) : R := stepLogs s logs
+
 def knownFault (m : String) : Bool :=
   m = "none" || m = "mint_revert" || m = "mint_noop" || m = "mint_short" || m = "burn_revert" ||
   m = "burn_noop" || m = "call_err"
@@ -533,6 +570,7 @@ def step (s : State) : Op → R
   | .hookSwap src c to amount => stepHookSwap s src c to amount
   | .evmFault mode => stepEvmFault s mode
   | .updateParams authority p => stepUpdateParams s authority p
+  | .evmTx target logs => stepEvmTx s target logs
 
 /-- the chain-level step: a rejected message leaves the state unchanged -/
 def apply (s : State) (op : Op) : State :=
